@@ -512,7 +512,7 @@ Proof.
 Qed.
 
 (* ---- weights scaled by k ---- *)
-Open Scope Qc_scope.
+Local Open Scope Qc_scope.
 Definition scale_w (k : Qc) (w : rk_w) : rk_w :=
   match w with WSc w => WSc (k * w) | WTen ws => WTen (map (map (Qcmult k)) ws) end.
 Lemma rk_sumQ_scale k l : rk_sumQ (map (Qcmult k) l) = k * rk_sumQ l.
